@@ -5,7 +5,7 @@
 set -u
 ID=$1; N=$2
 SRC=${MUTSRC:-/tmp/mut}/$ID
-OUT=/verif/seeded/$ID-${MUTTAG:-}$N
+OUT=/verif/seeded/${MUTOUT:-$ID-${MUTTAG:-}$N}
 [ -f $SRC/patch$N.diff ] || { echo "no patch $SRC/patch$N.diff"; exit 1; }
 mkdir -p $OUT
 WT=$(mktemp -d -u /tmp/confirm-wt-XXXXXX)
